@@ -83,6 +83,34 @@ theorem read_within_timeout (more : Bytes → Bool) (T : Nat) (s : Stream) :
   have := readLoop_time more T s 0 []
   omega
 
+/-- THE LOOP TERMINATES. The `while` loop of `read_tty`, iterated literally (one `select` per
+    iteration, the clock re-read after every iteration), for EVERY reply schedule — silent
+    terminal, late or partial replies, garbage: it leaves the loop after at most one poll per
+    pending byte plus one (the poll that runs into the deadline), with the result of `readLoop`,
+    having spent no more than the timeout.  (Time is event-driven here, so "one poll per byte + 1"
+    is the counterpart of ⌈timeout/step⌉ + 1.)  A silent terminal costs exactly one poll. -/
+theorem read_terminates (more : Bytes → Bool) (T : Nat) (s : Stream) (fuel : Nat)
+    (hf : s.length + 2 ≤ fuel) :
+    (readIter more T fuel 0 [] s).1 = readLoop more T 0 [] s ∧
+    (readIter more T fuel 0 [] s).2 ≤ s.length + 1 ∧
+    (readIter more T fuel 0 [] s).1.2.1 ≤ T ∧
+    (readIter more T fuel 0 [] []).2 ≤ 1 := by
+  have h := readIter_eq more T s fuel 0 [] hf
+  have h0 := readIter_eq more T [] fuel 0 [] (by simp at hf ⊢; omega)
+  refine ⟨h.1, h.2, ?_, by simpa using h0.2⟩
+  rw [h.1]
+  have := readLoop_time more T s 0 []
+  omega
+
+/-- with `min > 0` the blocking read comes first and the timed loop only gets what is left of
+    the timeout: once `min` bytes are in, never more than `max elapsed T` in total -/
+theorem read_min_within_timeout (more : Bytes → Bool) (T min : Nat) (echo : Bool) (s : Stream)
+    (bs : Bytes) (t : Nat) (rest : Stream) (hmin : min ≠ 0) (hb : takeBlocking min s = some (bs, t, rest)) :
+    ∃ r, readTty more T min echo s = some r ∧ r.2.1 ≤ max t T ∧
+      readTty more T min (!echo) s = some r := by
+  have hm : (min == 0) = false := by simpa using hmin
+  refine ⟨readLoop more T t bs rest, by simp [readTty, hm, hb], readLoop_time more T rest t bs, by simp [readTty, hm, hb]⟩
+
 theorem query_within_timeout (en : Bool) (more : Bytes → Bool) (T : Nat) (w arr : Stream) :
     (queryTerminal en more T w arr).2.1 ≤ T ∧ (queryThenDrain en T w arr).2.1 ≤ T :=
   ⟨queryTerminal_time en more T w arr, queryTerminal_time en moreCSI T w arr⟩
